@@ -1109,10 +1109,10 @@ func (x *execCtx) tableRows(f *TableRef, sc *scope) ([]relShape, [][]*relBinding
 	var rows [][]*relBinding
 	for _, r := range t.Rows {
 		if x.s.db.rowVisible(r, x.snap) {
-			rows = append(rows, []*relBinding{{name: alias, cols: cols, vals: r.Vals, src: r, tbl: t, rowType: t.Name}})
+			rows = append(rows, []*relBinding{{name: alias, cols: cols, vals: r.Vals, src: r, tbl: t, rowType: t.qname()}})
 		}
 	}
-	return []relShape{{name: alias, cols: cols, rowType: t.Name}}, rows, nil
+	return []relShape{{name: alias, cols: cols, rowType: t.qname()}}, rows, nil
 }
 
 // ---------- grouping ----------
